@@ -166,9 +166,9 @@ Section OpsFacts.
     - (* occupied *)
       assert (Vk : view s k = Some (ids_of p)) by (unfold view; rewrite E; reflexivity).
       assert (Hk : forall i, has s i k = memz i (ids_of p)) by (intros; rewrite has_view, Vk; auto).
-      destruct (negb (allow_dup cfg) && negb (memz id (ids_of p))) eqn:EU.
+      destruct (negb (allow_dup cfg) && negb (isnil (ids_of p)) && negb (memz id (ids_of p))) eqn:EU.
       + intros H; inversion H; subst; clear H.
-        apply andb_true_iff in EU as [EU1 EU2]. apply negb_true_iff in EU1, EU2.
+        apply andb_true_iff in EU as [EU0 EU2]. apply andb_true_iff in EU0 as [EU1 EUn]. apply negb_true_iff in EU1, EU2.
         split; [apply (LEq_Inv s); auto|]. split; [intros; apply (LEq_Unique s); auto|].
         split; auto. split; [rewrite Hk; auto|]. split.
         * destruct (ids_of p) as [|i0 r0] eqn:EI.
@@ -186,7 +186,10 @@ Section OpsFacts.
              apply andb_true_iff in EQ as [E1 E2]. apply Z.eqb_eq in E1, E2. subst.
              rewrite Hk, EM. reflexivity.
         * assert (AD : allow_dup cfg = true).
-          { destruct (allow_dup cfg) eqn:EAD; auto; exfalso; simpl in EU; discriminate. }
+          { destruct (allow_dup cfg) eqn:EAD; auto. exfalso.
+            destruct (ids_of p) as [|i0 r0] eqn:EI.
+            - apply (inv_nonempty s I k []); auto.
+            - simpl in EU. discriminate. }
           replace (0 <? dsz sz id) with true by (symmetry; apply Z.ltb_lt; apply SPd).
           intros H; inversion H; subst; clear H.
           set (p' := (bid_of p, ver_of p + 1, ids_of p ++ [id]) : posting).
